@@ -21,6 +21,7 @@ class Ctx:
         # abstract_order: comparisons other than =/!= become uninterpreted predicates on G. Validity under
         # the abstraction implies validity under the real order (used only to turn `unknown` into `unsat`).
         self.abstract_order = abstract_order
+        self.twin = None   # deliberately wrong reference variants, used only by vacuity twins
         self.G = None
         self._mk_sorts()
         self.preds = {}       # (name, arity, world) -> FuncDecl
@@ -226,13 +227,101 @@ class Ctx:
             return z3.And(*links) if len(links) != 1 else links[0]
         return None
 
+    one_point = True
+    _uniq = 0
+
+    def _pull(self, f):
+        """exists Z (exists I (phi) and psi)  ==>  exists Z I' (phi' and psi) with I' globally fresh: existential
+        quantifiers distribute out of conjunctions (classically and in HT, static domain)."""
+        if not self.one_point or f[0] != 'exists':
+            return f
+        vs = list(f[1])
+        units = []
+        changed = False
+        for u in _flatten(f[2], 'and'):
+            if u[0] == 'exists':
+                u = self._pull(u)
+                body = u[2]
+                for (name, sort) in u[1]:
+                    Ctx._uniq += 1
+                    fresh = '%s#%d' % (name, Ctx._uniq)
+                    body = rename_free(body, (str(name), str(sort)), fresh)
+                    vs.append((Q(fresh), sort))
+                units.extend(_flatten(body, 'and'))
+                changed = True
+            else:
+                units.append(u)
+        if not changed:
+            return f
+        body = units[0]
+        for u in units[1:]:
+            body = ('and', body, u)
+        return ('exists', tuple(vs), body)
+
     def _bind(self, f, env):
-        bound = []
-        env2 = dict(env)
+        """Bind the quantifier block of f. For existential blocks over a conjunction the one-point rule
+        exists v (v = t and phi) <-> phi[v := t] is applied while building the z3 term (a logical
+        equivalence, valid classically and in HT because equality is world-independent); the defining
+        equality is still translated, so sort side conditions (an integer variable equated with a general
+        term) remain as residual conjuncts."""
+        block = []
         for (name, sort) in f[1]:
-            c = self.fresh_const('%s$%s' % (name, sort), self.sort_of(sort))
-            env2[(str(name), str(sort))] = c
-            bound.append(c)
+            k = (str(name), str(sort))
+            if k not in block:
+                block.append(k)
+        defs = {}
+        if self.one_point and f[0] == 'exists':
+            for c in _flatten(f[2], 'and'):
+                if c[0] == 'cmp' and len(c) == 4 and str(c[2]) == '=':
+                    # I = A + R with R bound and occurring nowhere else in the equation: R := I - A
+                    for lhs, rhs in ((c[1], c[3]), (c[3], c[1])):
+                        if rhs[0] == 'add' and self.term_kind(lhs) == 'i':
+                            for a_, r_ in ((rhs[1], rhs[2]), (rhs[2], rhs[1])):
+                                k = _var_key(r_)
+                                if (k is not None and k[1] == 'i' and k in block and k not in defs
+                                        and k not in term_vars(a_, set()) and k not in term_vars(lhs, set())
+                                        and not _depends(term_vars(a_, set()) | term_vars(lhs, set()), k, defs)):
+                                    defs[k] = ('sub', lhs, a_)
+                    for v_t, t in ((c[1], c[3]), (c[3], c[1])):
+                        k = _var_key(v_t)
+                        if k is None or k not in block or k in defs:
+                            continue
+                        tv = term_vars(t, set())
+                        if k in tv:
+                            continue
+                        kind = self.term_kind(t)
+                        if k[1] == 'i' and kind == 's':
+                            continue
+                        if k[1] == 's' and kind != 's':
+                            continue
+                        # acyclic: t must not (transitively) depend on k through earlier definitions
+                        if _depends(tv, k, defs):
+                            continue
+                        defs[k] = t
+                        break
+        env2 = dict(env)
+        bound = []
+        for k in block:
+            if k not in defs:
+                c = self.fresh_const('%s$%s' % k, self.sort_of(k[1]))
+                env2[k] = c
+                bound.append(c)
+        # evaluate definitions in dependency order
+        pending = dict(defs)
+        guard = 0
+        while pending and guard < 1000:
+            guard += 1
+            for k, t in list(pending.items()):
+                if any(d in pending for d in term_vars(t, set()) if d in defs):
+                    continue
+                kind = self.term_kind(t)
+                if k[1] == 'g':
+                    env2[k] = self.gterm(t, env2)
+                elif k[1] == 'i':
+                    env2[k] = self.iterm(t, env2) if kind == 'i' else self.G.ival(self.gterm(t, env2))
+                else:
+                    env2[k] = self.sterm(t, env2)
+                del pending[k]
         return bound, env2
 
     def cl(self, f, env=None, predmap=None, world=''):
@@ -255,6 +344,7 @@ class Ctx:
         if tag == 'iff':
             return self.cl(f[1], env, predmap, world) == self.cl(f[2], env, predmap, world)
         if tag in ('forall', 'exists'):
+            f = self._pull(f)
             bound, env2 = self._bind(f, env)
             body = self.cl(f[2], env2, predmap, world)
             if not bound:
@@ -287,6 +377,7 @@ class Ctx:
             return z3.And(z3.Implies(a_h, b_h), z3.Implies(a_t, b_t),
                           z3.Implies(b_h, a_h), z3.Implies(b_t, a_t))
         if tag in ('forall', 'exists'):
+            f = self._pull(f)
             bound, env2 = self._bind(f, env)
             body = self.ht(f[2], 'h', env2, predmap)
             if not bound:
@@ -307,65 +398,94 @@ class Ctx:
         return out
 
     # ------------------------------------------------------------ mini-gringo reference (4.3)
-    def val(self, t, r, env):
-        """val(t, r): r (a G term) is one of the values of the ASP term t."""
+    # A term denotes a set of values. It is described by a package (bound, cond, value): the values are
+    # { value | exists bound. cond }. Interval-free terms are single-valued and need no bound variables;
+    # division/modulo use the solver's own div/mod (floor quotient, remainder in [0, j)) and are defined
+    # for positive divisors only; arithmetic is undefined on non-integers.
+    def ival_pkg(self, t, env):
+        """t as an integer operand: (bound Int consts, condition, Int expression)."""
+        G = self.G
+        tag = t[0]
+        if tag == 'pnum':
+            return [], z3.BoolVal(True), self.numeral(t[1])
+        if tag in ('pinf', 'psup', 'psym'):
+            return [], z3.BoolVal(False), z3.IntVal(0)
+        if tag == 'var':
+            x = env[str(t[1])]
+            return [], G.is_int(x), G.ival(x)
+        if tag == 'neg':
+            b, c, v = self.ival_pkg(t[1], env)
+            return b, c, 0 - v
+        b1, c1, v1 = self.ival_pkg(t[1], env)
+        b2, c2, v2 = self.ival_pkg(t[2], env)
+        if tag == 'add':
+            return b1 + b2, z3.And(c1, c2), v1 + v2
+        if tag == 'sub':
+            return b1 + b2, z3.And(c1, c2), v1 - v2
+        if tag == 'mul':
+            return b1 + b2, z3.And(c1, c2), v1 * v2
+        if tag in ('div', 'mod'):
+            # floor quotient q and remainder m of v1 by a positive divisor v2, by their defining equation
+            # (equivalent to the solver's div/mod for v2 > 0, but linear whenever v2 is a numeral and free of
+            # the div/mod axiomatisation when it is not)
+            q = self.fresh_const('q', z3.IntSort())
+            m = v1 - v2 * q          # the remainder, by the defining equation v1 = v2*q + m
+            if self.twin == 'truncating':      # WRONG on purpose: any non-zero divisor
+                return (b1 + b2 + [q], z3.And(c1, c2, v2 != 0, 0 <= m, m < z3.If(v2 > 0, v2, 0 - v2)),
+                        q if tag == 'div' else m)
+            return b1 + b2 + [q], z3.And(c1, c2, v2 > 0, 0 <= m, m < v2), q if tag == 'div' else m
+        if tag == 'interval':
+            k = self.fresh_const('k', z3.IntSort())
+            if self.twin == 'interval-strict':  # WRONG on purpose: upper bound excluded
+                return b1 + b2 + [k], z3.And(c1, c2, v1 <= k, k < v2), k
+            return b1 + b2 + [k], z3.And(c1, c2, v1 <= k, k <= v2), k
+        raise ValueError('asp term %r' % (t,))
+
+    def gval_pkg(self, t, env):
+        """t as a value of the standard domain: (bound, condition, G expression)."""
         G = self.G
         tag = t[0]
         if tag == 'pinf':
-            return r == G.inf
+            return [], z3.BoolVal(True), G.inf
         if tag == 'psup':
-            return r == G.sup
+            return [], z3.BoolVal(True), G.sup
         if tag == 'pnum':
-            return r == G.int(self.numeral(t[1]))
+            return [], z3.BoolVal(True), G.int(self.numeral(t[1]))
         if tag == 'psym':
-            return r == G.sym(self.symbol(t[1]))
+            return [], z3.BoolVal(True), G.sym(self.symbol(t[1]))
         if tag == 'var':
-            return r == env[str(t[1])]
-        if tag == 'neg':
-            j = self.fresh_const('j', z3.IntSort())
-            return z3.Exists([j], z3.And(self.val(t[1], G.int(j), env), r == G.int(0 - j)))
-        i = self.fresh_const('i', z3.IntSort())
-        j = self.fresh_const('j', z3.IntSort())
-        vi = self.val(t[1], G.int(i), env)
-        vj = self.val(t[2], G.int(j), env)
-        if tag == 'add':
-            return z3.Exists([i, j], z3.And(vi, vj, r == G.int(i + j)))
-        if tag == 'sub':
-            return z3.Exists([i, j], z3.And(vi, vj, r == G.int(i - j)))
-        if tag == 'mul':
-            return z3.Exists([i, j], z3.And(vi, vj, r == G.int(i * j)))
-        if tag in ('div', 'mod'):
-            # floor quotient / non-negative remainder, defined for positive divisors only
-            q = self.fresh_const('q', z3.IntSort())
-            m = self.fresh_const('m', z3.IntSort())
-            res = q if tag == 'div' else m
-            return z3.Exists([i, j, q, m], z3.And(vi, vj, j > 0, i == j * q + m, 0 <= m, m < j,
-                                                  r == G.int(res)))
-        if tag == 'interval':
-            k = self.fresh_const('k', z3.IntSort())
-            return z3.Exists([i, j, k], z3.And(vi, vj, i <= k, k <= j, r == G.int(k)))
-        raise ValueError('asp term %r' % (t,))
+            return [], z3.BoolVal(True), env[str(t[1])]
+        b, c, v = self.ival_pkg(t, env)
+        return b, c, G.int(v)
+
+    def val(self, t, r, env):
+        """val(t, r): r (a G term) is one of the values of the ASP term t."""
+        b, c, v = self.gval_pkg(t, env)
+        body = z3.And(c, r == v)
+        return z3.Exists(b, body) if b else body
 
     def body_lit(self, b, w, env):
         tag = b[0]
         if tag == 'lit':
             sign, atom = b[1], b[2]
             name, args = atom[1], atom[2:]
-            rs = [self.fresh_const('r', self.G) for _ in args]
-            vals = [self.val(a, r, env) for a, r in zip(args, rs)]
+            pk = [self.gval_pkg(a, env) for a in args]
+            bound = [x for p in pk for x in p[0]]
+            conds = [p[1] for p in pk]
+            vals = [p[2] for p in pk]
             if sign == 'pos':
-                core = self.pred(name, len(args), w)(*rs)
+                core = self.pred(name, len(args), w)(*vals)
             elif sign == 'not':
-                core = z3.Not(self.pred(name, len(args), 't')(*rs))
+                core = z3.Not(self.pred(name, len(args), w if self.twin == 'not-here' else 't')(*vals))
             else:
-                core = self.pred(name, len(args), 't')(*rs)
-            body = z3.And(*(vals + [core])) if vals else core
-            return z3.Exists(rs, body) if rs else body
+                core = self.pred(name, len(args), 't')(*vals)
+            body = z3.And(*(conds + [core])) if conds else core
+            return z3.Exists(bound, body) if bound else body
         if tag == 'cmp':
-            r1 = self.fresh_const('r', self.G)
-            r2 = self.fresh_const('r', self.G)
-            return z3.Exists([r1, r2], z3.And(self.val(b[2], r1, env), self.val(b[3], r2, env),
-                                              self.rel(b[1], r1, r2)))
+            b1, c1, v1 = self.gval_pkg(b[2], env)
+            b2, c2, v2 = self.gval_pkg(b[3], env)
+            body = z3.And(c1, c2, self.rel(b[1], v1, v2))
+            return z3.Exists(b1 + b2, body) if b1 + b2 else body
         raise ValueError('body %r' % (b,))
 
     def head(self, h, w, env):
@@ -374,16 +494,19 @@ class Ctx:
             return z3.BoolVal(False)
         atom = h[1]
         name, args = atom[1], atom[2:]
-        rs = [self.fresh_const('r', self.G) for _ in args]
-        vals = [self.val(a, r, env) for a, r in zip(args, rs)]
-        pw = self.pred(name, len(args), w)(*rs)
+        pk = [self.gval_pkg(a, env) for a in args]
+        bound = [x for p in pk for x in p[0]]
+        conds = [p[1] for p in pk]
+        vals = [p[2] for p in pk]
+        pw = self.pred(name, len(args), w)(*vals)
         if tag == 'basic':
             concl = pw
         else:
-            concl = z3.Or(pw, z3.Not(self.pred(name, len(args), 't')(*rs)))
-        if not rs:
+            concl = z3.Or(pw, z3.Not(self.pred(name, len(args), 't')(*vals)))
+        if not args:
             return concl
-        return z3.ForAll(rs, z3.Implies(z3.And(*vals), concl))
+        body = z3.Implies(z3.And(*conds), concl)
+        return z3.ForAll(bound, body) if bound else body
 
     @staticmethod
     def asp_term_vars(t, acc):
@@ -426,6 +549,63 @@ class Ctx:
 
 
 # ---------------------------------------------------------------- syntactic helpers on fol trees
+
+def _flatten(f, tag):
+    if f[0] == tag:
+        return _flatten(f[1], tag) + _flatten(f[2], tag)
+    return [f]
+
+
+def rename_term(t, key, fresh):
+    tag = t[0]
+    if tag in ('gvar', 'ivar', 'svar'):
+        if _var_key(t) == key:
+            return (tag, Q(fresh))
+        return t
+    if tag in ('neg', 'add', 'sub', 'mul'):
+        return (tag,) + tuple(rename_term(x, key, fresh) for x in t[1:])
+    return t
+
+
+def rename_free(f, key, fresh):
+    """Rename the free occurrences of variable key=(name, sort) in f to the (globally unused) name fresh."""
+    tag = f[0]
+    if tag == 'atom':
+        return f[:2] + tuple(rename_term(t, key, fresh) for t in f[2:])
+    if tag == 'cmp':
+        return ('cmp',) + tuple(rename_term(x, key, fresh) if i % 2 == 0 else x for i, x in enumerate(f[1:]))
+    if tag == 'not':
+        return ('not', rename_free(f[1], key, fresh))
+    if tag in ('and', 'or', 'imp', 'rimp', 'iff'):
+        return (tag, rename_free(f[1], key, fresh), rename_free(f[2], key, fresh))
+    if tag in ('forall', 'exists'):
+        if any((str(n), str(s)) == key for (n, s) in f[1]):
+            return f
+        return (tag, f[1], rename_free(f[2], key, fresh))
+    return f
+
+
+def _var_key(t):
+    if t[0] == 'gvar':
+        return (str(t[1]), 'g')
+    if t[0] == 'ivar':
+        return (str(t[1]), 'i')
+    if t[0] == 'svar':
+        return (str(t[1]), 's')
+    return None
+
+
+def _depends(tvars, k, defs, seen=None):
+    seen = seen or set()
+    for d in tvars:
+        if d == k:
+            return True
+        if d in defs and d not in seen:
+            seen.add(d)
+            if _depends(term_vars(defs[d], set()), k, defs, seen):
+                return True
+    return False
+
 
 def fol_preds(f, acc=None):
     acc = set() if acc is None else acc
